@@ -229,8 +229,8 @@ func runWorkers(bin string, p core.Property, tier string, seed int64, race bool,
 				stderr, _ := os.ReadFile(filepath.Join(workDir, tag+".stderr"))
 				out.res.Evaluations += done
 				out.fatal = append(out.fatal, core.Witness{Property: p.ID(), Index: last, Seed: seed, Tier: tier, Race: race,
-					Case: fmt.Sprintf("%s/%d/%d", p.ID(), seed, last),
-					What: fmt.Sprintf("process-fatal failure (worker exit: %v) during this case", err),
+					Case:   fmt.Sprintf("%s/%d/%d", p.ID(), seed, last),
+					What:   fmt.Sprintf("process-fatal failure (worker exit: %v) during this case", err),
 					Detail: map[string]any{"stderr_tail": tail(string(stderr), 6000)}})
 				mu.Unlock()
 				if last < 0 || attempt > 20 {
